@@ -571,7 +571,12 @@ class Dict(dict, base.Symbolic, pg_typing.CustomTyping):
         # without schema.
         return None
     else:
-      new_value = self._formalized_value(key, field, value)
+      try:
+        new_value = self._formalized_value(key, field, value)
+      except Exception:
+        # The write is rejected: the old value stays attached where it was.
+        self._relocate_if_symbolic(key, old_value)
+        raise
       super().__setitem__(key, new_value)
 
     self._invalidate_content_caches()
